@@ -250,6 +250,10 @@ pub enum ScalarR {
     Small(u8),
     /// r - 1 + k  (k = 0: r-1, 1: r, 2: r+1)
     NearR(u8),
+    /// m*r + delta for m in 0..=4 (clipped at 0 and below 2^256): the scalars at which a double-and-add or
+    /// windowed ladder on a point of order r meets its own base point or a table entry again
+    /// (r+2, 2r+4, 2r+5: accumulator = base; r, 2r, 4r: accumulator = -base; ...)
+    NearMultR(u8, i16),
     Bit(u8),
     TwoBits(u8, u8),
     /// 2^n - 1
@@ -275,6 +279,16 @@ impl ScalarR {
             ScalarR::One => one,
             ScalarR::Small(k) => Z::from(*k as u32),
             ScalarR::NearR(k) => r() - &one + Z::from(*k as u32 % 3),
+            ScalarR::NearMultR(m, d) => {
+                let base = r() * Z::from(*m as u32 % 5);
+                let v = if *d >= 0 {
+                    base + Z::from(*d as u32)
+                } else {
+                    let dd = Z::from((-(*d as i32)) as u32);
+                    if base >= dd { base - dd } else { base }
+                };
+                v % (Z::one() << 256)
+            }
             ScalarR::Bit(i) => one << (*i as usize),
             ScalarR::TwoBits(i, j) => (one.clone() << (*i as usize)) | (one << (*j as usize)),
             ScalarR::LowMask(n) => (one.clone() << (*n as usize % 257)) - &one,
@@ -313,6 +327,7 @@ impl ScalarR {
             ScalarR::One => "k=1",
             ScalarR::Small(_) => "k-small",
             ScalarR::NearR(_) => "k-near-r",
+            ScalarR::NearMultR(_, _) => "k-near-multiple-of-r",
             ScalarR::Bit(_) => "k-single-bit",
             ScalarR::TwoBits(_, _) => "k-two-bits",
             ScalarR::LowMask(_) => "k-mask",
@@ -331,6 +346,7 @@ pub fn scalar_strategy() -> BoxedStrategy<ScalarR> {
         1 => Just(ScalarR::One),
         1 => any::<u8>().prop_map(ScalarR::Small),
         2 => (0u8..3).prop_map(ScalarR::NearR),
+        3 => (0u8..5, prop_oneof![3 => -8i16..=8, 1 => -600i16..=600]).prop_map(|(m, d)| ScalarR::NearMultR(m, d)),
         3 => any::<u8>().prop_map(ScalarR::Bit),
         2 => (any::<u8>(), any::<u8>()).prop_map(|(a, b)| ScalarR::TwoBits(a, b)),
         2 => (0u16..257).prop_map(ScalarR::LowMask),
